@@ -132,6 +132,15 @@ def renamed(cases, pool):
     return out
 
 
+def reordered(cases):
+    """same circuits with the nodes inserted in reverse order (gates before their drivers, inputs last): graph iteration order
+    is then different from topological order"""
+    out = []
+    for cid, s in cases:
+        out.append((("revorder",) + cid, {"name": s["name"], "nodes": list(reversed(s["nodes"])), "edges": list(reversed(s["edges"])), "bbs": dict(s.get("bbs", {}))}))
+    return out
+
+
 # ---------------------------------------------------------------------- F-cyc
 def f_cyc():
     S = []
